@@ -260,11 +260,16 @@ def mutate(r, t, p):
             return r.choice(grp)
     k = t[0]
     if k == "sa":
-        n = t[1] + (1 if r.random() < p / 2 else 0)
-        return ["sa", n, mutate(r, t[2], p)]
+        c = r.random()
+        if c < p / 3:
+            # static <-> dynamic with the same elements (length 0 is the degenerate neighbour of "dynamic")
+            return ["da", mutate(r, t[2], p)]
+        if c < p / 2:
+            return ["sa", r.choice([0, 0, 1, t[1] + 1]), mutate(r, t[2], p)]
+        return ["sa", t[1], mutate(r, t[2], p)]
     if k == "da":
-        if r.random() < p / 3:
-            return ["sa", 2, mutate(r, t[1], p)]
+        if r.random() < p / 2:
+            return ["sa", r.choice([0, 0, 1, 2]), mutate(r, t[1], p)]
         return ["da", mutate(r, t[1], p)]
     if k in ("tup", "nt"):
         fields = [mutate(r, x, p) for x in (t[1:] if k == "tup" else t[2:])]
